@@ -1,4 +1,4 @@
-use std::io;
+use std::io::{self, BufRead};
 
 use crate::builtins::utils::print_stderr_with_capture;
 use crate::shell::Shell;
@@ -13,6 +13,12 @@ fn _find_invalid_identifier(name_list: &Vec<String>) -> Option<String> {
         }
     }
     None
+}
+
+fn read_first_line(path: &str) -> io::Result<String> {
+    let mut line = String::new();
+    io::BufReader::new(std::fs::File::open(path)?).read_line(&mut line)?;
+    Ok(line)
 }
 
 pub fn run(sh: &mut Shell, cl: &CommandLine, cmd: &Command,
@@ -38,6 +44,19 @@ pub fn run(sh: &mut Shell, cl: &CommandLine, cmd: &Command,
         if let Some(redirect_from) = &cmd.redirect_from {
             buffer.push_str(&redirect_from.1);
             buffer.push('\n');
+        }
+    } else if cmd.has_redirect_from() {
+        // `read name < file`: the first line of the file
+        if let Some(redirect_from) = &cmd.redirect_from {
+            match read_first_line(&redirect_from.1) {
+                Ok(line) => buffer.push_str(&line),
+                Err(e) => {
+                    let info = format!("cicada: read: {}: {}", &redirect_from.1, e);
+                    print_stderr_with_capture(&info, &mut cr, cl, cmd, capture);
+                    cr.status = 1;
+                    return cr;
+                }
+            }
         }
     } else {
         match io::stdin().read_line(&mut buffer) {
